@@ -581,3 +581,5 @@ RULE += (' Added: Chain results abandoned half-way (closed / dropped): the input
 RULE += (' Added: invalid steps that are Fractions, Decimals, infinities and nan, with negative '
          'and non-negative indices.')
 RULE += (' Added: Chain arguments that are iterable and also callable (an object, an Enum class).')
+
+RULE += (' Round 10: Reverse on 127..4097 values; Slice copied (copy.copy, copy.deepcopy) after k fills, copy and original filled on.')
